@@ -14,12 +14,15 @@ From XV Require Import Base.Label Base.LSet Base.ODict Base.Attr Base.Outcome Mo
 Import ListNotations.
 
 Inductive table := TNode | TEdge.                    (* _node / _edge (sets) ; their attribute dicts go along *)
-Inductive vexp := VArg (i : nat) | VLoop | VLoop1.  (* the i-th label parameter, the innermost loop variable, the enclosing one *)
+Inductive vexp := VArg (i : nat) | VLoop | VLoop1 | VUid | VIdx.  (* the i-th label parameter, the innermost loop variable, the enclosing one *)
 Inductive bexp :=
 | BIn (k : vexp) (t : table)                         (* k in self._T *)
 | BMember (x k : vexp) (t : table)                   (* x in self._T[k] *)
 | BEmptySet (k : vexp) (t : table)                   (* not self._T[k] *)
 | BFlag (i : nat)                                    (* the i-th boolean parameter *)
+| BNoneInMembers                                      (* None in members *)
+| BIdxNone                                            (* idx is None *)
+| BIdxIn (t : table)                                  (* idx in self._T   (Python's None is the label LNone) *)
 | BNot (b : bexp) | BAnd (a b : bexp).
 Inductive stmt :=
 | SIf (c : bexp) (th el : list stmt)
@@ -34,11 +37,25 @@ Inductive stmt :=
 | SAttrUpdate (t : table) (k : vexp)                 (* self._T_attr[k].update(attr), attr = the **attr of the call *)
 | SForCopy (t : table) (k : vexp) (body : list stmt)  (* for <loop> in self._T[k].copy(): body *)
 | SBindIn (t : table) (k : vexp) (body : list stmt)   (* x = self._T[k] (a reference to the stored set, not mutated afterwards); body = the rest of the block *)
-| SForLocal (i : nat) (minus : option vexp) (body : list stmt). (* for <loop> in <i-th bound set>[.difference({minus})]: body *)
+| SForLocal (i : nat) (minus : option vexp) (body : list stmt)
+| SBindUid (body : list stmt)                         (* uid = next(self._edge_uid) if idx is None else idx ; body = rest of the block *)
+| SForMembers (body : list stmt)                      (* for <loop> in members: body   (members = set(members)) *)
+| SForKeys (t : table) (body : list stmt)             (* for <loop> in self.nodes / self.edges: body   (the body keeps the key set) *)
+| SClear (t : table) | SClearAttr (t : table)         (* self._T.clear()   self._T_attr.clear() *)
+| SClearNet                                            (* self._net_attr.clear() *)
+| SNop. (* for <loop> in <i-th bound set>[.difference({minus})]: body *)
 
-Record env := mkEnv { e_args : list lbl; e_flags : list bool; e_loop : lbl; e_attr : attrs; e_loop1 : lbl; e_locals : list (list lbl) }.
+Record env := mkEnv { e_args : list lbl; e_flags : list bool; e_loop : lbl; e_attr : attrs; e_loop1 : lbl; e_locals : list (list lbl);
+                      e_members : list lbl; e_idx : option lbl; e_uid : lbl }.
+Definition with_loop (en : env) (x : lbl) : env :=
+  mkEnv (e_args en) (e_flags en) x (e_attr en) (e_loop en) (e_locals en) (e_members en) (e_idx en) (e_uid en).
+Definition with_local (en : env) (m : list lbl) : env :=
+  mkEnv (e_args en) (e_flags en) (e_loop en) (e_attr en) (e_loop1 en) (m :: e_locals en) (e_members en) (e_idx en) (e_uid en).
+Definition with_uid_var (en : env) (u : lbl) : env :=
+  mkEnv (e_args en) (e_flags en) (e_loop en) (e_attr en) (e_loop1 en) (e_locals en) (e_members en) (e_idx en) u.
 Definition veval (v : vexp) (en : env) : lbl :=
-  match v with VArg i => nth i (e_args en) LNone | VLoop => e_loop en | VLoop1 => e_loop1 en end.
+  match v with VArg i => nth i (e_args en) LNone | VLoop => e_loop en | VLoop1 => e_loop1 en | VUid => e_uid en
+  | VIdx => match e_idx en with Some i => i | None => LNone end end.
 Definition tab (t : table) (s : hg) : odict (list lbl) := match t with TNode => h_node s | TEdge => h_edge s end.
 Definition set_tab (t : table) (s : hg) (d : odict (list lbl)) : hg := match t with TNode => with_node s d | TEdge => with_edge s d end.
 Definition atab (t : table) (s : hg) : odict attrs := match t with TNode => h_nattr s | TEdge => h_eattr s end.
@@ -51,6 +68,9 @@ Fixpoint beval (b : bexp) (en : env) (s : hg) : bool + exc :=
   | BMember x k t => match get (veval k en) (tab t s) with Some m => inl (mem (veval x en) m) | None => inr IDNotFound end
   | BEmptySet k t => match get (veval k en) (tab t s) with Some [] => inl true | Some _ => inl false | None => inr IDNotFound end
   | BFlag i => inl (nth i (e_flags en) false)
+  | BNoneInMembers => inl (existsb is_none (e_members en))
+  | BIdxNone => inl (match e_idx en with None => true | Some _ => false end)
+  | BIdxIn t => inl (has (match e_idx en with Some i => i | None => LNone end) (tab t s))
   | BNot c => match beval c en s with inl v => inl (negb v) | inr e => inr e end
   | BAnd a c => match beval a en s with
                 | inl false => inl false
@@ -102,7 +122,7 @@ Fixpoint exec (p : stmt) (en : env) (s : hg) {struct p} : hg * outcome :=
              | x :: r =>
                  match (fix go (l : list stmt) (s : hg) : hg * outcome :=
                           match l with [] => (s, Ok)
-                          | q :: r' => match exec q (mkEnv (e_args en) (e_flags en) x (e_attr en) (e_loop en) (e_locals en)) s with (s', Ok) => go r' s' | y => y end end) body s with
+                          | q :: r' => match exec q (with_loop en x) s with (s', Ok) => go r' s' | y => y end end) body s with
                  | (s', Ok) => iter r s'
                  | y => y
                  end
@@ -114,7 +134,7 @@ Fixpoint exec (p : stmt) (en : env) (s : hg) {struct p} : hg * outcome :=
       | Some m =>
           (fix go (l : list stmt) (s : hg) : hg * outcome :=
              match l with [] => (s, Ok)
-             | q :: r => match exec q (mkEnv (e_args en) (e_flags en) (e_loop en) (e_attr en) (e_loop1 en) (m :: e_locals en)) s with
+             | q :: r => match exec q (with_local en m) s with
                          | (s', Ok) => go r s' | y => y end end) body s
       end
   | SForLocal i minus body =>
@@ -124,18 +144,78 @@ Fixpoint exec (p : stmt) (en : env) (s : hg) {struct p} : hg * outcome :=
          | x :: r =>
              match (fix go (l : list stmt) (s : hg) : hg * outcome :=
                       match l with [] => (s, Ok)
-                      | q :: r' => match exec q (mkEnv (e_args en) (e_flags en) x (e_attr en) (e_loop en) (e_locals en)) s with
+                      | q :: r' => match exec q (with_loop en x) s with
                                    | (s', Ok) => go r' s' | y => y end end) body s with
              | (s', Ok) => iter r s'
              | y => y
              end
          end) (match minus with Some v => sremove (veval v en) (nth i (e_locals en) []) | None => nth i (e_locals en) [] end) s
+  | SBindUid body =>
+      let u := match e_idx en with Some i => i | None => LInt (h_uid s) end in
+      let s0 := match e_idx en with Some _ => s | None => with_uid s (h_uid s + 1)%Z end in
+      (fix go (l : list stmt) (s : hg) : hg * outcome :=
+         match l with [] => (s, Ok)
+         | q :: r => match exec q (with_uid_var en u) s with (s', Ok) => go r s' | y => y end end) body s0
+  | SForMembers body =>
+      (fix iter (xs : list lbl) (s : hg) : hg * outcome :=
+         match xs with
+         | [] => (s, Ok)
+         | x :: r =>
+             match (fix go (l : list stmt) (s : hg) : hg * outcome :=
+                      match l with [] => (s, Ok)
+                      | q :: r' => match exec q (with_loop en x) s with (s', Ok) => go r' s' | y => y end end) body s with
+             | (s', Ok) => iter r s'
+             | y => y
+             end
+         end) (e_members en) s
+  | SForKeys t body =>
+      (fix iter (xs : list lbl) (s : hg) : hg * outcome :=
+         match xs with
+         | [] => (s, Ok)
+         | x :: r =>
+             match (fix go (l : list stmt) (s : hg) : hg * outcome :=
+                      match l with [] => (s, Ok)
+                      | q :: r' => match exec q (with_loop en x) s with (s', Ok) => go r' s' | y => y end end) body s with
+             | (s', Ok) => iter r s'
+             | y => y
+             end
+         end) (keys (tab t s)) s
+  | SClear t => (set_tab t s [], Ok)
+  | SClearAttr t => (set_atab t s [], Ok)
+  | SClearNet => (mkHG (h_node s) (h_nattr s) (h_edge s) (h_eattr s) [] (h_uid s), Ok)
+  | SNop => (s, Ok)
   end.
 
 Fixpoint exec_list (l : list stmt) (en : env) (s : hg) : hg * outcome :=
   match l with [] => (s, Ok) | q :: r => match exec q en s with (s', Ok) => exec_list r en s' | x => x end end.
 
 Definition run_method_a (body : list stmt) (args : list lbl) (flags : list bool) (a : attrs) (s : hg) : res :=
-  match exec_list body (mkEnv args flags LNone a LNone []) s with (s', o) => (s', o, O) end.
+  match exec_list body (mkEnv args flags LNone a LNone [] [] None LNone) s with (s', o) => (s', o, O) end.
 Definition run_method (body : list stmt) (args : list lbl) (flags : list bool) (s : hg) : res :=
   run_method_a body args flags [] s.
+
+(* methods whose body starts with guards: `if c: raise E` / `if c: warn(...); return`, then the statements *)
+Inductive guard_action := GRaise (e : exc) | GWarnReturn.
+Fixpoint run_guards (gs : list (bexp * guard_action)) (en : env) (s : hg) : option res :=
+  match gs with
+  | [] => None
+  | (c, act) :: r =>
+      match beval c en s with
+      | inr e => Some (s, Raised e, O)
+      | inl true => Some (match act with GRaise e => (s, Raised e, O) | GWarnReturn => (s, Ok, 1%nat) end)
+      | inl false => run_guards r en s
+      end
+  end.
+Definition run_guarded (gs : list (bexp * guard_action)) (body : list stmt) (en : env) (s : hg) : res :=
+  match run_guards gs en s with
+  | Some r => r
+  | None => match exec_list body en s with (s', o) => (s', o, O) end
+  end.
+
+(* a method (self, members, idx=None, **attr) whose first statement is `members = set(members)` *)
+Definition run_method_m (gs : list (bexp * guard_action)) (body : list stmt) (members : list lbl) (idx : option lbl) (a : attrs) (s : hg) : res :=
+  run_guarded gs body (mkEnv [] [] LNone a LNone [] (mkset members) idx LNone) s.
+
+(* a method (self, <iterable of ids>) / (self, <flags>) *)
+Definition run_method_l (body : list stmt) (ids : list lbl) (flags : list bool) (s : hg) : res :=
+  match exec_list body (mkEnv [] flags LNone [] LNone [] ids None LNone) s with (s', o) => (s', o, O) end.
